@@ -9,6 +9,15 @@ tvars == <<vars, l>>
 Tr == ndJsonDeserialize(IOEnv.TRACE)
 E == Tr[l]
 Is(o) == l <= Len(Tr) /\ Tr[l].op = o /\ l' = l + 1
+\* what the step reported to its test: "ok" (with what came back), a failure category, "skipped" (not executed: the test had
+\* been left), or "muted": executed - in the teardown - although the test had already failed, and nothing was added to the test's
+\* failures; for the specification a muted step is one without effect on the test, like a skipped one.  A step of a failed
+\* test that does add a failure is logged with that failure's category - and is no behaviour of Mock
+Rk == IF E.r = "muted" THEN "skipped" ELSE E.r
+\* a typed getter checks the type of the value it reads with a check of the test itself (category "check"), not through the mock's
+\* reporter: in a test that has already failed such a read may fail once more - that is no report of the mock (Mock!EndReportsOK
+\* admits these further failures, and only these)
+RkRead == IF failed /\ E.r = "check" THEN "skipped" ELSE Rk
 
 \* a returned value denotes the expectation's return value (a returned double carries no tolerance)
 SameValue(x, y) == /\ x.t = y.t
@@ -29,29 +38,32 @@ Reps(max) == "reps" \in DOMAIN E => Len(E.reps) \in 1..max
 StuckBefore(s) == ~failed /\ ms[s].live /\ Finish(ms[s]).cats # {}
 
 TNext ==
-    \/ Is("expect") /\ InDomain(E.s, E.e) /\ Expect(E.s, E.e) /\ res'.k = E.r
-    \/ Is("begin") /\ Begin(E.s, E.fn) /\ res'.k = E.r /\ Reps(IF StuckBefore(E.s) THEN 2 ELSE 1)
-    \/ Is("param") /\ Param(E.s, E.k, E.v) /\ res'.k = E.r /\ Reps(1)
-    \/ Is("outparam") /\ OutParam(E.s, E.k, E.ty) /\ res'.k = E.r /\ Reps(1)
-    \/ Is("object") /\ OnObject(E.s, E.o) /\ res'.k = E.r /\ Reps(1)
-    \/ /\ Is("ret") /\ ReturnValue(E.s, E.g, E.od, E.d, E.via) /\ res'.k = E.r /\ Reps(1)
+    \/ Is("expect") /\ (failed \/ InDomain(E.s, E.e)) /\ Expect(E.s, E.e) /\ res'.k = Rk
+    \/ Is("begin") /\ Begin(E.s, E.fn) /\ res'.k = Rk /\ Reps(IF StuckBefore(E.s) THEN 2 ELSE 1)
+    \/ Is("param") /\ Param(E.s, E.k, E.v) /\ res'.k = Rk /\ Reps(1)
+    \/ Is("outparam") /\ OutParam(E.s, E.k, E.ty) /\ res'.k = Rk /\ Reps(1)
+    \/ Is("object") /\ OnObject(E.s, E.o) /\ res'.k = Rk /\ Reps(1)
+    \/ /\ Is("ret") /\ ReturnValue(E.s, E.g, E.od, E.d, E.via) /\ res'.k = RkRead /\ Reps(1)
        /\ E.r = "ok" => /\ res'.has = E.has
                         /\ (E.has \/ E.g # "value") => SameValue(res'.val, E.val)
                         /\ \A k \in DOMAIN res'.outs : k \in DOMAIN E.outs /\ E.outs[k] = res'.outs[k]
-    \/ Is("left") /\ Left /\ res'.k = E.r /\ (E.r = "ok" => res'.left = E.left) /\ ((~failed /\ "reps" \in DOMAIN E) => LeftReportsOK(E.reps))
-    \/ Is("setdata") /\ SetData(E.s, E.k, E.v) /\ res'.k = E.r
-    \/ Is("getdata") /\ GetData(E.s, E.k) /\ res'.k = E.r /\ (E.r = "ok" => SameValue(res'.val, E.val))
-    \/ Is("check") /\ Check /\ res'.k = E.r /\ ((~failed /\ "reps" \in DOMAIN E) => CheckReportsOK(E.reps))
-    \/ Is("clear") /\ Clear /\ res'.k = E.r
-    \/ Is("disable") /\ Disable /\ res'.k = E.r
-    \/ Is("enable") /\ Enable /\ res'.k = E.r
-    \/ Is("ignoreothers") /\ IgnoreOtherCalls /\ res'.k = E.r
-    \/ Is("strict") /\ StrictOrder(E.s) /\ res'.k = E.r
-    \/ Is("installcmp") /\ E.md \in CmpModes /\ InstallComparator(E.s, E.tn, E.md) /\ res'.k = E.r
-    \/ Is("installcpy") /\ E.md \in CpyModes /\ InstallCopier(E.s, E.tn, E.md) /\ res'.k = E.r
-    \/ Is("removeall") /\ RemoveAll(E.s) /\ res'.k = E.r
+    \/ Is("left") /\ Left /\ res'.k = Rk /\ (E.r = "ok" => res'.left = E.left) /\ ((~failed /\ "reps" \in DOMAIN E) => LeftReportsOK(E.reps))
+    \/ Is("setdata") /\ SetData(E.s, E.k, E.v) /\ res'.k = Rk
+    \/ Is("getdata") /\ GetData(E.s, E.k) /\ res'.k = Rk /\ (E.r = "ok" => SameValue(res'.val, E.val))
+    \/ Is("check") /\ Check /\ res'.k = Rk /\ ((~failed /\ "reps" \in DOMAIN E) => CheckReportsOK(E.reps))
+    \/ Is("clear") /\ Clear /\ res'.k = Rk
+    \/ Is("disable") /\ Disable /\ res'.k = Rk
+    \/ Is("enable") /\ Enable /\ res'.k = Rk
+    \/ Is("ignoreothers") /\ IgnoreOtherCalls /\ res'.k = Rk
+    \/ Is("strict") /\ StrictOrder(E.s) /\ res'.k = Rk
+    \/ Is("installcmp") /\ E.md \in CmpModes /\ InstallComparator(E.s, E.tn, E.md) /\ res'.k = Rk
+    \/ Is("installcpy") /\ E.md \in CpyModes /\ InstallCopier(E.s, E.tn, E.md) /\ res'.k = Rk
+    \/ Is("removeall") /\ RemoveAll(E.s) /\ res'.k = Rk
+    \* the test around the scenario: a failing check of the test itself; the end of the body / the beginning of the teardown
+    \/ Is("failcheck") /\ CheckFails /\ res'.k = Rk
+    \/ Is("teardown") /\ Teardown /\ res'.k = Rk
     \* the end of the test: the verdict, and the failures the test recorded (inside a real test: in its TestResult), in order
-    \/ Is("end") /\ End /\ res'.k = E.r /\ Len(E.reps) = E.vcount /\ EndReportsOK(E.reps)
+    \/ Is("end") /\ End /\ res'.k = Rk /\ Len(E.reps) = E.vcount /\ EndReportsOK(E.reps)
 \* executions are concatenated with reset lines (cleared mock)
 TReset == Is("reset") /\ ms' = FreshScopes /\ created' = <<>> /\ failed' = FALSE /\ why' = "" /\ last' = "init" /\ res' = Ok
 TSpec == (Init /\ l = 1) /\ [][TNext \/ TReset]_tvars
@@ -79,6 +91,8 @@ PNext ==
     \/ Is("installcmp") /\ InstallComparator(E.s, E.tn, E.md)
     \/ Is("installcpy") /\ InstallCopier(E.s, E.tn, E.md)
     \/ Is("removeall") /\ RemoveAll(E.s)
+    \/ Is("failcheck") /\ CheckFails
+    \/ Is("teardown") /\ Teardown
     \/ Is("end") /\ End
 PSpec == (Init /\ l = 1) /\ [][PNext \/ TReset]_tvars
 Predict == (l > 1 /\ l - 1 >= atoi(IOEnv.FROM_LINE_N)) => PrintT(<<"BEH", ToJson([line |-> l - 1, op |-> last, predicted |-> res])>>)
